@@ -22,7 +22,11 @@ CRASH_IS_VIOLATION = False
 TIMEOUT = {"quick": 900, "thorough": 5400}
 ALG_OPS = ["Borda", "BordaBucket", "Copeland", "KwikSort", "PickAPerm", "BioConsert", "BioCo", "BioConsert[Borda]",
            "BioConsert[Copeland,KwikSort]", "BioConsert[PickAPerm]", "BioConsert[PickAPerm,Borda]", "ParCons",
-           "ParCons(BioConsert;0)", "ParCons(KwikSort;2)", "ParCons(PickAPerm;0)", "Pulp", "Exact"]
+           "ParCons(BioConsert;0)", "ParCons(KwikSort;2)", "ParCons(PickAPerm;0)", "Pulp", "Exact",
+           # starters given in other containers; one-shot iterators are refused (TypeError) by the unchanged library at every
+           # computation, which is left to other properties -- should they be accepted, every use must give the same result
+           "BioConsert[tuple:Borda,Copeland]", "BioConsert[dictvalues:Copeland,Borda]", "BioConsert[iter:Borda,Copeland]",
+           "BioConsert[gen:Copeland]"]
 OTHER_OPS = ["kemeny_score", "description", "str", "parcons_partition", "parfront_partition", "unified_rankings",
              "unified_dataset", "sub_problem", "get_positions", "get_bucket_ids", "scheme_mul", "equivalence", "dataset_eq",
              "nickname", "score_candidate", "iterate", "topk", "topk"]
